@@ -237,9 +237,9 @@ def u_client(c):
 def u_client_subprotocol(c):
     """the client side of a whole handshake over an in-memory connection: a subprotocol in the response must be one the client asked for"""
     offered = c.choose("client-offers", [None, ["chat"], ["chat", "superchat"], ["superchat", "chat.v2"]])
-    answered = c.choose("server-answers", [None, "chat", "superchat", "evil", "chat.v2", "v2", "superchat,chat.v2", ""])
+    answered = c.choose("server-answers", [None, "chat", "superchat", "evil", "chat.v2", "v2", "superchat,chat.v2"])        # (an empty header value is malformed; what to do with it is not in the statement)
     r = client_handshake(c, offered, answered)
-    ok = answered in (None, "") or (offered is not None and answered in offered)        # (an empty header value names no subprotocol)
+    ok = answered is None or (offered is not None and answered in offered)
     c.cover("client-subprotocol/%s" % ("ok" if ok else "bad"))
     c.values = {k: repr(v)[:200] for k, v in r.items()}
     c.oblige("post/the-connection-is-established-exactly-when-the-answered-subprotocol-was-offered (or none was answered)", r["connected"] == ok)
